@@ -248,3 +248,78 @@ Definition create_check (c : tname * list pv * option ty * list ty) : bool :=
   | _, _ => false
   end.
 Definition create_mismatches (cs : list (tname * list pv * option ty * list ty)) : list N := failing create_check cs.
+
+(* ---- Object types: the attributes against the init hash (Model/ObjectPrint.v) ---- *)
+From PcoreV Require Import Model.ObjectPrint.
+
+(* Types and values of a case are numbered by the harness: equal (px.Equals) types have one number, equal values
+   have one number, the value undef is 0. The tables are what the implementation answered for them. *)
+Record otab := {
+  tb_gen : list (N * N);      (* value -> px.Generalize(v.PType()) *)
+  tb_opt : list N;            (* the types that are *OptionalType *)
+  tb_optof : list (N * N);    (* type -> NewOptionalType(type) *)
+  tb_undef : list N;          (* the values with v.Equals(undef) *)
+  tb_default : list N;        (* the values that are *DefaultValue *)
+  tb_inst : list (N * N)      (* (type, value) with px.IsInstance *)
+}.
+
+Definition lookupN (l : list (N * N)) (k : N) : N :=
+  match find (fun p => N.eqb (fst p) k) l with Some p => snd p | None => 0%N end.
+Definition memN (l : list N) (k : N) : bool := existsb (N.eqb k) l.
+Definition mem2N (l : list (N * N)) (a b : N) : bool := existsb (fun p => N.eqb (fst p) a && N.eqb (snd p) b) l.
+
+Definition obj_oracle (tb : otab) : oracle N N :=
+  {| teq := N.eqb; gen_type := lookupN (tb_gen tb); is_optional := memN (tb_opt tb);
+     optional_of := lookupN (tb_optof tb); is_undef := memN (tb_undef tb); is_default := memN (tb_default tb);
+     is_instance := mem2N (tb_inst tb); undef := 0%N |}.
+
+Definition oattr := attr N N.
+Definition mk_attr (n : str) (t : N) (k : akind) (v : option N) (f o : bool) : oattr :=
+  {| a_name := n; a_type := t; a_kind := k; a_value := v; a_final := f; a_override := o |}.
+Definition mk_spec (t : N) (f o : option bool) (k : option akind) (v : option N) : aspec N N :=
+  {| s_type := t; s_final := f; s_override := o; s_kind := k; s_value := v |}.
+Definition mk_ihash (a : list (str * mspec N N)) (c : list (str * N)) : ihash N N :=
+  {| h_attributes := a; h_constants := c |}.
+
+Definition optN_eqb := option_eqb N.eqb.
+Definition optb_eqb := option_eqb Bool.eqb.
+Definition attr_beq (a b : oattr) : bool :=
+  str_eqb (a_name a) (a_name b) && N.eqb (a_type a) (a_type b) && akind_eqb (a_kind a) (a_kind b) &&
+  optN_eqb (a_value a) (a_value b) && Bool.eqb (a_final a) (a_final b) && Bool.eqb (a_override a) (a_override b).
+Definition aspec_beq (a b : aspec N N) : bool :=
+  N.eqb (s_type a) (s_type b) && optb_eqb (s_final a) (s_final b) && optb_eqb (s_override a) (s_override b) &&
+  option_eqb akind_eqb (s_kind a) (s_kind b) && optN_eqb (s_value a) (s_value b).
+Definition mspec_beq (a b : mspec N N) : bool :=
+  match a, b with
+  | MBare x, MBare y => N.eqb x y
+  | MHash x, MHash y => aspec_beq x y
+  | _, _ => false
+  end.
+Definition ihash_beq (a b : ihash N N) : bool :=
+  list_eqb (fun p q => str_eqb (fst p) (fst q) && mspec_beq (snd p) (snd q)) (h_attributes a) (h_attributes b) &&
+  list_eqb (fun p q => str_eqb (fst p) (fst q) && N.eqb (snd p) (snd q)) (h_constants a) (h_constants b).
+Definition oerr_eqb (a b : oerr) : bool :=
+  match a, b with
+  | EConstantWithFinal, EConstantWithFinal | EIllegalKindValue, EIllegalKindValue | ETypeMismatch, ETypeMismatch
+  | EConstantRequiresValue, EConstantRequiresValue | EBothConstantAndAttribute, EBothConstantAndAttribute
+  | EOverriddenNotFound, EOverriddenNotFound | EAttributeHasNoValue, EAttributeHasNoValue => true
+  | _, _ => false
+  end.
+
+(* (tables, the init hash given to InitFromHash, what it made of it: the attributes in order or the issue reported,
+   the `attributes` and `constants` of InitHash() of the result) *)
+Definition object_check (c : otab * ihash N N * ores (list oattr) * option (ihash N N)) : bool :=
+  let '(tb, h, obs, printed) := c in
+  let O := obj_oracle tb in
+  match init_from_hash O h, obs with
+  | OOk l, OOk l' =>
+    list_eqb attr_beq l l' &&
+    match init_hash O l', printed with
+    | OOk p, Some p' => ihash_beq p p'
+    | _, _ => false
+    end
+  | OErr e, OErr e' => oerr_eqb e e'
+  | _, _ => false
+  end.
+Definition object_mismatches (cs : list (otab * ihash N N * ores (list oattr) * option (ihash N N))) : list N :=
+  failing object_check cs.
